@@ -76,10 +76,13 @@ func (b *BoundedIterator) SeekToLast() {
 		// key before the end bound, but it works for now
 		b.Iterator.Seek(b.end)
 
-		// If we landed exactly at the end bound, back up one
-		if b.Iterator.Valid() && bytes.Equal(b.Iterator.Key(), b.end) {
-			// We need to back up because end is exclusive
-			// This is inefficient but correct
+		if !b.Iterator.Valid() {
+			// Every key is below the end bound: the last key is the answer
+			b.Iterator.SeekToLast()
+		} else {
+			// We landed on the first key at or after the end bound (whether or
+			// not the bound itself is a key). We need to back up because end is
+			// exclusive. This is inefficient but correct
 			b.Iterator.SeekToFirst()
 
 			// Scan to find the last key before the end bound
